@@ -6,7 +6,8 @@ LEVEL = "other"
 EXPLANATION = (
     "partial proof + differential exploration.  Proved in Coq (unbounded): soundness of the Z_2 Gaussian elimination the "
     "specification runs on, the semantic reading of its relation sweep, 'bars alive at i = r(i,i) = Betti number of K_i', "
-    "transparency of identity arrows, the "
+    "transparency of identity arrows, the insertion-only clause end to end (on insertion-only sequences the specification's "
+    "barcode is the certified ordinary persistence pairing: pairing theorem + bridge to coq/ReduceExec.v), the "
     "index->value translation / zero-length / ignored-dimension clauses of the filtered front-ends as functions of the index "
     "barcode (incl.: skipping the cells above ignore_cycles_above_dim leaves the bars of the reported dimensions unchanged).  NOT proved: (1) that the "
     "numbers r_k(b,e) = dim dom - dim ker of the composed inclusion relation H_k(K_b) ~> H_k(K_e) determine the interval "
@@ -23,7 +24,8 @@ MANIFEST = dict(
          "0<=b<=e<n, r_k(b,e) = dim dom - dim ker of the relation H_k(K_b) ~> H_k(K_e) composed from the inclusions, and the "
          "multiplicities by inclusion-exclusion; Coq proves the elimination sound (echelon basis spans the same space, is "
          "independent, rank invariant under change of spanning set), that the number of bars alive at arrow i in dimension k is the "
-         "Betti number of K_i (valid sequences), that identity arrows carry no birth or death, and that the filtered front-ends' "
+         "Betti number of K_i (valid sequences), that identity arrows carry no birth or death, that on insertion-only sequences the "
+         "specification equals the certified ordinary persistence pairing, and that the filtered front-ends' "
          "translation / zero-length removal / ignore_cycles_above_dim are the stated functions of the index barcode (skipping the high "
          "cells does not change the reported dimensions).  "
          "Zigzag_persistence, Filtered_zigzag_persistence and Filtered_zigzag_persistence_with_storage are run on random valid "
@@ -31,8 +33,8 @@ MANIFEST = dict(
          "identity arrows, monotone values with plateaus) for all 8 column types and compared after EVERY arrow with the "
          "specification; metamorphic: insertion-only = persistence-matrix barcode (C05), reversal mirrors the intervals.",
     note="Trusted: Coq kernel, extraction + OCaml driver, harness, g++; literature theorem 'relation ranks (generalised ranks) "
-         "determine the interval decomposition of a zigzag module'; the insertion-only clause (= certified ordinary pairing) and "
-         "non-negativity of the multiplicities are checked per case, not proved.  The algorithm of zigzag_persistence.h is compared, never proved.",
+         "determine the interval decomposition of a zigzag module'; non-negativity of the multiplicities in general is checked "
+         "per case, not proved.  The algorithm of zigzag_persistence.h is compared, never proved.",
     ref="design/C07.md")
 CORRESPONDENCE = ("coq/C07_Model.v specification (extracted: ocaml/c07_oracle.ml) vs harness/c07_drv.cpp: streamed intervals, open intervals, "
                   "index / value diagrams and index->value table after every arrow, 8 column types x 3 classes")
